@@ -1016,6 +1016,39 @@ func ruleTLIdx(c *Ctx) {
 			}
 		}
 	}
+	// the timestamp parser folded over all inputs up to a length (rules_ptfold.go): a second, independent
+	// decision of "no input makes an offset go out of range", which also settles the offsets whose bound the
+	// length dataflow cannot follow (a helper that relies on what its caller, or a sibling helper's result,
+	// established)
+	var pp *ptPanics
+	if pfn := P.Func(P.Time, "parseTime"); pfn != nil && len(pfn.Params) == 1 {
+		nmax := int64(32)
+		if c.Tier == "thorough" {
+			nmax = 56
+		}
+		pp = parseNoPanic(P, pfn, nmax)
+		key := fnKey(pfn) + "/no-panic-by-fold"
+		switch {
+		case !pp.ok:
+			c.Note("TL-IDX: the parser could not be folded over all short inputs (%s); the offsets are decided by the length dataflow alone", pp.why)
+		case len(pp.panicAt) > 0:
+			var sites []string
+			for in := range pp.panicAt {
+				sites = append(sites, P.pos(in.Pos()))
+			}
+			sort.Strings(sites)
+			c.Bad(key, P.pos(pfn.Pos()), fmt.Sprintf("some input of at most %d bytes makes the parser panic at %s", pp.n, strings.Join(sites, ", ")))
+		default:
+			c.OK(key, P.pos(pfn.Pos()), fmt.Sprintf("folded over every input of 0..%d bytes, all byte values at once (%d paths): none of the %d index/slice sites executed with known offsets goes out of range (%d more are executed with an offset the fold does not know exactly and are left to the length dataflow)", pp.n, pp.paths, len(pp.touched)-len(pp.unsure), len(pp.unsure)))
+		}
+	}
+	rescued := func(in ssa.Instruction, key string, what string) bool {
+		if pp == nil || !pp.ok || !pp.touched[in] || pp.panicAt[in] || pp.unsure[in] {
+			return false
+		}
+		c.OK(key, P.pos(in.Pos()), fmt.Sprintf("the length dataflow does not establish the bound here; decided by folding the parser over every input of up to %d bytes (all byte values): this %s is executed and never out of range (inputs longer than that differ only in the number of fraction digits the loop consumes)", pp.n, what))
+		return true
+	}
 	var excluded []string
 	for _, f := range scope {
 		n := 0
@@ -1070,6 +1103,9 @@ func ruleTLIdx(c *Ctx) {
 						if b, ok := idx.Type().Underlying().(*types.Basic); ok && b.Kind() == types.Uint8 && at.Len() >= 256 {
 							bounded = true
 						}
+						if !bounded && rescued(in, key, "array index") {
+							continue
+						}
 						c.Check(bounded, key, P.pos(in.Pos()), fmt.Sprintf("the computed index is known to be below the array's length %d", at.Len()), fmt.Sprintf("a computed index into an array of %d elements has no dominating bound: input that drives it past the end panics", at.Len()))
 						continue
 					}
@@ -1112,6 +1148,9 @@ func ruleTLIdx(c *Ctx) {
 				key := fmt.Sprintf("%s/%s#%d", fnKey(f), what, n)
 				have := m.minLenAt(base, facts, 0)
 				if need >= 0 {
+					if have < need && rescued(in, key, what) {
+						continue
+					}
 					c.Check(have >= need, key, P.pos(in.Pos()), fmt.Sprintf("needs length >= %d, established >= %d", need, have), fmt.Sprintf("this %s needs a length of at least %d but only %d has been established on some path: shorter input panics", what, need, have))
 					continue
 				}
@@ -1130,6 +1169,9 @@ func ruleTLIdx(c *Ctx) {
 					}
 					if worst > have {
 						good = false
+					}
+					if !good && rescued(in, key, what) {
+						continue
 					}
 					c.Check(good, key, P.pos(in.Pos()), fmt.Sprintf("offset is a range index of the same string (+%d at most) or a constant <= %d, the established minimum length", rel, have),
 						fmt.Sprintf("when the loop over this string does not run, the offset is the constant %d but the string may be empty (established minimum length %d): input that ends right here panics", worst, have))
